@@ -34,14 +34,14 @@ func init() {
 		ID: "C07",
 		Rule: "corpus blocks of every era + generated blocks (corpus Dijkstra block carrying the corpus Dijkstra transaction twice; Babbage corpus block with every transaction doubled = 28 transactions), each re-encoded with cborx under: identity; " +
 			"every structural class of container (block, bodies, body, outputs, output, witness sets, witness set, datum/redeemer/script lists, aux map, Byron payload arrays, Dijkstra nested arrays, inner containers) x sampled members x each other header form (direct,1,2,4,8-byte,indefinite); " +
-			"every class of TAG (tag 258 sets on witness lists and body sets, tag 24 wrappers, tag 259 aux data, ...) x sampled members x every head width that can carry the tag number (direct,1,2,4,8 bytes) - on the corpus blocks and on generated Alonzo/Babbage/Conway/Dijkstra blocks whose witness lists (Conway+: also body sets) were wrapped in #6.258 and given native + Plutus V1..V4 scripts; the run is inconclusive unless a #6.258 script list was reached with a 2-, 4- and 8-byte tag head; bulk policies; random per-node policies (PRNG). " +
+			"every class of TAG (tag 258 sets on witness lists and body sets, tag 24 wrappers, tag 259 aux data, ...) x sampled members x every head width that can carry the tag number (direct,1,2,4,8 bytes) - on the corpus blocks and on generated Alonzo/Babbage/Conway/Dijkstra blocks whose witness lists (Conway+: also body sets) were wrapped in #6.258 and given native + Plutus V1..V4 scripts; all component classes (body, witness set, metadata, outputs, datums, redeemers, scripts) must be reported with the exact range, a missing range is a violation; the run is inconclusive unless a #6.258 script list was reached with a 2-, 4- and 8-byte tag head; bulk policies; random per-node policies (PRNG). " +
 			"A case is one (variant, extractor function) pair; it is non-trivial when the era decoder accepted the variant, the block has >= 1 transaction and every reported range was compared with ground truth; distinct by (function, hash of the input bytes)",
 		MinNontrivial: 300,
 		Assumptions: []string{
 			"cborx computes item boundaries correctly (self-checked by identity re-encoding of every corpus block)",
 			"golang.org/x/crypto/blake2b is correct",
 			"datum / script map keys are judged only for self-consistency with the sliced bytes (blake2b-256 of the datum bytes; blake2b-224 of type prefix + element bytes), not against the ledger's script hash",
-			"a component the extractor silently leaves out (although the decoded block has it) is reported under a separate :missing key; an extractor that returns an error is counted, not judged",
+			"every component class is must-report: transaction body, witness set, metadata (when the transaction has auxiliary data), every output, every datum, redeemer and script of the witness set - in plain and in #6.258-tagged lists, for every tag head width and array header form the era decoder accepts; a component the extractor leaves out is a violation under a :missing key; an extractor that returns an error is counted, not judged",
 		},
 		QuickTimeout: 600, ThoroughTimeout: 3 * 3600,
 		Run: run,
@@ -149,9 +149,8 @@ func compare(offs *lcommon.BlockTransactionOffsets, l *blockx.Layout) ([]miss, i
 			r, ok := loc.Datums[lcommon.Blake2b256(h)]
 			id := fmt.Sprintf("tx%d.datum%d", i, k)
 			if !ok {
-				if !wp.Tagged[4] {
-					out = append(out, miss{id: id, kind: "datum", node: d, missing: true, want: rng(d), detail: "no range reported under the hash of this datum"})
-				}
+				// must-report: plain and #6.258 datum lists alike
+				out = append(out, miss{id: id, kind: "datum", node: d, missing: true, want: rng(d), detail: "no range reported under the hash of this datum"})
 				continue
 			}
 			claimed[r] = true
@@ -176,9 +175,7 @@ func compare(offs *lcommon.BlockTransactionOffsets, l *blockx.Layout) ([]miss, i
 			id := fmt.Sprintf("tx%d.redeemer%d", i, k)
 			r, ok := loc.Redeemers[lcommon.RedeemerKey{Tag: lcommon.RedeemerTag(rd.Tag), Index: uint32(rd.Index)}]
 			if !ok {
-				if !wp.Tagged[5] {
-					out = append(out, miss{id: id, kind: "redeemer", node: rd.Data, missing: true, want: rng(rd.Data), detail: "no range reported for this redeemer key"})
-				}
+				out = append(out, miss{id: id, kind: "redeemer", node: rd.Data, missing: true, want: rng(rd.Data), detail: "no range reported for this redeemer key"})
 				continue
 			}
 			if !same(r, rd.Data) {
@@ -648,15 +645,6 @@ func (m *mon) judge(fn string, b *blk, v variant, x []byte, l *blockx.Layout, bl
 	ms, n := compare(offs, l)
 	c.Count("ranges_compared", n)
 	c.Count("accepted_"+fn, 1)
-	// observation (not judged): components inside #6.258 datum sets / tagged redeemers the extractor leaves out
-	if len(offs.Transactions) == len(l.Txs) && !blockx.IsByron(l.Type) {
-		for i := range l.Txs {
-			wp := blockx.WitnessParts(l.Txs[i].Witness)
-			if wp.Tagged[4] && len(wp.Datums) > 0 && len(offs.Transactions[i].Datums) == 0 {
-				c.Count("observed_tagged_datum_set_without_ranges_"+fn, 1)
-			}
-		}
-	}
 	if len(l.Txs) > 0 {
 		hh := fnv.New64a()
 		hh.Write(x)
